@@ -175,8 +175,8 @@ macro_rules! proofs {
 
 // @harness c18_res_from_i64_p2 tier=quick unwind=2 block=64
 // @harness c18_res_from_i64_p7 tier=quick unwind=2 block=64
-// @harness c18_res_from_i64_big tier=quick unwind=2 block=64 timeout=900 solver=z3
-// @harness c18_res_from_i64_big_reach tier=quick unwind=2 block=64 timeout=900 solver=z3 twin
+// @harness c18_res_from_i64_big tier=quick unwind=2 block=64 timeout=1200 solver=z3
+// @harness c18_res_from_i64_big_reach tier=quick unwind=2 block=64 timeout=1200 solver=z3 twin
 // @harness c18_res_from_i64_p7_reach tier=quick unwind=2 block=64 twin
 // @harness c18_res_from_i32_p2 tier=quick unwind=2 block=64
 // @harness c18_res_from_i32_p7 tier=quick unwind=2 block=64
